@@ -31,7 +31,7 @@ def run_case(case, wall=8.0, max_steps=6000):
     items = case["items"]
     ctl = tc.Controller(TARGETS, first=case.get("first", 0), pre=case.get("pre", ()), wall=wall, max_steps=max_steps,
                         auto_clock=True)
-    run = {"ticks": [], "p_returned": False, "timers": [], "sitems": [], "starts": [[] for _ in items], "disposed_at": [None] * len(items),
+    run = {"check_pos": {}, "ticks": [], "p_returned": False, "timers": [], "sitems": [], "starts": [[] for _ in items], "disposed_at": [None] * len(items),
            "sched_at": [None] * len(items), "due": [None] * len(items), "excs": []}
     log = ctl.log
 
@@ -96,6 +96,8 @@ def run_case(case, wall=8.0, max_steps=6000):
         def is_cancelled(self):
             r = super().is_cancelled()
             log.append(("L", self.n, "check-skip" if r else "check-run", tid()))
+            if not r:
+                run["check_pos"][tid()] = len(log)  # the read that lets the action through = "the action starts"
             return r
 
         def cancel(self):
@@ -105,9 +107,25 @@ def run_case(case, wall=8.0, max_steps=6000):
             return r
 
     class FakeExecutor:
+        """ThreadPoolExecutor.submit with a bounded number of workers (controlled threads): submissions beyond that
+        wait in a FIFO queue until a worker frees up."""
+
+        def __init__(self, max_workers):
+            self.max_workers, self.busy, self.q = max_workers, 0, []
+
         def submit(self, fn):
-            ctl.spawn(fn, "pool")
+            if self.busy < self.max_workers:
+                self.busy += 1
+                ctl.spawn(lambda: self._worker(fn), "pool")
+            else:
+                self.q.append(fn)
             return None
+
+        def _worker(self, fn):
+            fn()
+            while self.q:
+                self.q.pop(0)()
+            self.busy -= 1
 
     saved = (TOS.Timer, SCH.default_now, ELS.ScheduledItem)
     outcome = None
@@ -123,7 +141,7 @@ def run_case(case, wall=8.0, max_steps=6000):
             elif kind == "threadpool":
                 sched = ThreadPoolScheduler(1)
                 sched.executor.shutdown(wait=False)
-                sched.executor = FakeExecutor()
+                sched.executor = FakeExecutor((case.get("pool") or {}).get("workers", 10 ** 6))
             elif kind == "eventloop":
                 sched = EventLoopScheduler(thread_factory=CThread)
             else:
@@ -132,7 +150,11 @@ def run_case(case, wall=8.0, max_steps=6000):
 
             def mk_action(i):
                 def action(scheduler, state=None):
-                    run["starts"][i].append({"clock": sclock(), "thread": tid()})
+                    pos = run["check_pos"].pop(tid(), None)
+                    if pos is None:
+                        pos = len(log)  # nothing read the item's disposable before invoking it
+                    late = any(e[0] == "U" and e[1] == i and e[2] == "disposed" for e in log[:pos])
+                    run["starts"][i].append({"clock": sclock(), "thread": tid(), "after_dispose_returned": late})
                 return action
 
             def sleep_until(t):
@@ -174,6 +196,13 @@ def run_case(case, wall=8.0, max_steps=6000):
                 if case.get("type") == "periodic":
                     return periodic_user()
                 timeline = []
+                if case.get("pool") and case["pool"].get("block"):
+                    # saturate the pool: a blocker action keeps the only worker(s) busy for `block` ticks
+                    def blocker(scheduler, state=None):
+                        sleep_until(ctl.clock + case["pool"]["block"])
+
+                    for _ in range(case["pool"].get("workers", 1)):
+                        sched.schedule(blocker)
                 if case.get("skew"):
                     timeline.append((case["skew"]["at"], 2, "skew", -1))
                 for i, it in enumerate(items):
@@ -218,6 +247,7 @@ def run_case(case, wall=8.0, max_steps=6000):
                     else:
                         disposables[i].dispose()
                         run["disposed_at"][i] = sclock()
+                        log.append(("U", i, "disposed", tid()))
                 if kind == "eventloop":
                     sleep_until(horizon + 1 + run["offset"])
                     ctl.wait_until(lambda: all(run["starts"][i] or run["disposed_at"][i] is not None or False
